@@ -1001,8 +1001,7 @@ class Fxp():
                 if self.n_frac == 0:
                     val = raw_val
                 else:
-                    val = raw_val // self._get_conv_factor()
-                    val = np.array(list(map(int, val.flatten()))).reshape(val.shape)
+                    val = utils.int_array(raw_val // self._get_conv_factor())   # (the quotient can be a python scalar if raw_val is a 0-d object array)
                 
             elif dtype == complex or np.issubdtype(dtype, np.complexfloating):
                 val = (raw_val.real + 1j * raw_val.imag) / self._get_conv_factor()
